@@ -380,7 +380,7 @@ package server
 //@   at call LockQueue.Push assert C05.slot: lock.timeoutCheckedCount <= 8 && doTimeoutTime >= self.checkTimeoutTime && doTimeoutTime <= self.checkTimeoutTime + lock.timeoutCheckedCount && (doTimeoutTime <= lock.timeoutTime || doTimeoutTime == self.checkTimeoutTime)
 //@   at call LongWaitLockQueue.Push assert C05.longkey: lock.timeoutCheckedCount > 8 && lock.timeoutTime >= self.checkTimeoutTime && lock.timeoutTime >= old(lock.timeoutTime)
 //@   ensures otherLocksSame(lock) && lock.locked == old(lock.locked) && lock.refCount == old(lock.refCount) && lock.manager == old(lock.manager) && lock.command == old(lock.command) && lock.ackCount == old(lock.ackCount) && lock.expried == old(lock.expried) && lock.isAof == old(lock.isAof) && lock.protocol == old(lock.protocol)
-//@   modifies FastKeyValue.lock, FastKeyValue.manager, LockManager.fastKeyValue, LockQueue.*, Lock.longWaitIndex@lock, Lock.timeoutTime@lock, Lock.timeouted@lock, LongWaitLockFreeQueue.freeIndex, LongWaitLockQueue.*, E_LJPserver_Lock, E_Pserver_Lock, E_Pserver_LongWaitLockQueue, E_int32, MH_mapLL16JbyteJPserver_LockManager, MH_mapLint64JPserver_LongWaitLockQueue, MV_mapLL16JbyteJPserver_LockManager, MV_mapLint64JPserver_LongWaitLockQueue
+//@   modifies FastKeyValue.lock, FastKeyValue.manager, LockManager.fastKeyValue, LockQueue.*, Lock.longWaitIndex@lock, Lock.timeoutTime@lock, Lock.timeouted@lock, LongWaitLockFreeQueue.*, LongWaitLockQueue.*, E_LJPserver_Lock, E_Pserver_Lock, E_Pserver_LongWaitLockQueue, E_int32, MH_mapLL16JbyteJPserver_LockManager, MH_mapLint64JPserver_LongWaitLockQueue, MV_mapLL16JbyteJPserver_LockManager, MV_mapLint64JPserver_LongWaitLockQueue
 
 //@ func (*LockDB).AddMillisecondTimeOut
 //@   requires self != nil && lock != nil && lock.manager != nil && lock.command != nil
@@ -397,7 +397,7 @@ package server
 //@   ensures C06.armed.notearlier: lock.expriedTime >= old(lock.expriedTime)
 //@   loop#1 invariant otherLocksSame(lock) && !lock.expried && lock.locked == old(lock.locked) && lock.refCount == old(lock.refCount) && lock.manager == old(lock.manager) && lock.command == old(lock.command) && lock.ackCount == old(lock.ackCount) && lock.timeouted == old(lock.timeouted) && lock.protocol == old(lock.protocol) && lock.expriedTime >= old(lock.expriedTime)
 //@   ensures otherLocksSame(lock) && lock.locked == old(lock.locked) && lock.refCount == old(lock.refCount) && lock.manager == old(lock.manager) && lock.command == old(lock.command) && lock.ackCount == old(lock.ackCount) && lock.timeouted == old(lock.timeouted) && lock.protocol == old(lock.protocol)
-//@   modifies AofChannel.*, AofLockQueue.next, AofLockQueue.windex, AofLock.*, Aof.freeLockQueueIndex, FastKeyValue.lock, FastKeyValue.manager, LockManager.fastKeyValue, LockData.aofData, LockManagerData.isAof, LockQueue.*, Lock.data@lock, Lock.expried@lock, Lock.expriedTime@lock, Lock.isAof@lock, Lock.longWaitIndex@lock, LongWaitLockFreeQueue.freeIndex, LongWaitLockQueue.*, PriorityMutex.*, E_LJPserver_Lock, E_Pserver_AofLock, E_Pserver_Lock, E_Pserver_LongWaitLockQueue, E_int32, MH_mapLL16JbyteJPserver_LockManager, MH_mapLint64JPserver_LongWaitLockQueue, MV_mapLL16JbyteJPserver_LockManager, MV_mapLint64JPserver_LongWaitLockQueue
+//@   modifies AofChannel.*, AofLockQueue.next, AofLockQueue.windex, AofLock.*, Aof.freeLockQueueIndex, FastKeyValue.lock, FastKeyValue.manager, LockManager.fastKeyValue, LockData.aofData, LockManagerData.isAof, LockQueue.*, Lock.data@lock, Lock.expried@lock, Lock.expriedTime@lock, Lock.isAof@lock, Lock.longWaitIndex@lock, LongWaitLockFreeQueue.*, LongWaitLockQueue.*, PriorityMutex.*, E_LJPserver_Lock, E_Pserver_AofLock, E_Pserver_Lock, E_Pserver_LongWaitLockQueue, E_int32, MH_mapLL16JbyteJPserver_LockManager, MH_mapLint64JPserver_LongWaitLockQueue, MV_mapLL16JbyteJPserver_LockManager, MV_mapLint64JPserver_LongWaitLockQueue
 
 //@ func (*LockDB).AddMillisecondExpried
 //@   requires self != nil && lock != nil && lock.manager != nil && lock.command != nil && lock.manager.lockDb != nil
@@ -1282,13 +1282,11 @@ package server
 // sizes of node 0)
 //@ spec func qRewound(q) = q.headNodeIndex == 0 && q.headQueueIndex == 0 && q.tailNodeIndex == 0 && q.tailQueueIndex == 0 && q.headQueue == q.queues[0] && q.tailQueue == q.queues[0] && q.headQueueSize == q.nodeQueueSizes[0] && q.tailQueueSize == q.nodeQueueSizes[0]
 //@ func (*LockDB).restructuringLongExpriedQueue
-//@   requires self != nil && longLocks != nil && longLocks.locks != nil
+//@   requires self != nil && longLocks != nil
 //@   loop#1 entry C20.restructure.rewound: qRewound(longLocks.locks) && longLocks.lockCount == 0 && longLocks.freeCount == 0
-//@   modifies all
 //@ func (*LockDB).restructuringLongTimeOutQueue
-//@   requires self != nil && longLocks != nil && longLocks.locks != nil
+//@   requires self != nil && longLocks != nil
 //@   loop#1 entry C20.restructure.rewound: qRewound(longLocks.locks) && longLocks.lockCount == 0 && longLocks.freeCount == 0
-//@   modifies all
 
 // C11: a follower's acknowledgement is queued with the follower's verdict: the queued item carries the reply's
 // result code, command type, ids, key and counts (a negative acknowledgement must stay negative)
@@ -1356,8 +1354,10 @@ package server
 // owns the client id: the new connection must know the proxy (AddProxy), or its own Close would not park it again
 //@ func (*ProxyServerProtocol).ProcessLockResultCommandLocked
 //@   requires self != nil
+//@   requires C03.result-code: result <= protocol.RESULT_LOCK_ACK_WAITING
 //@   at call ProcessLockResultCommandLocked assert C18.proxy.adopted: implies(ref(self.serverProtocol) != ref(old(self.serverProtocol)), calls(AddProxy) == 1)
-//@   modifies all
+//@   preserves F_server_Lock_, F_server_LockManager, F_server_LockDB_, F_server_LockQueue_, F_server_LongWaitLock, F_server_MillisecondWaitLock, F_server_FastKeyValue_, F_server_PriorityMutex_, F_server_Aof, F_server_Arbiter, F_server_Replication, F_protocol_protobuf_, F_server_Subscribe, F_server_Publish, F_server_LockData_, F_protocol_LockDBState_, F_protocol_LockCommand_, E_Pserver_, E_LJPserver_, E_int32, E_server_, MH_, MV_
+//@   modifies protocol.TextParser.*, BinaryServerProtocol.*, MemWaiterServerProtocol.*, ProxyServerProtocol.*, Stream.*, StreamReaderBuffer.*, StreamWriterBuffer.*, TextServerProtocol.*, TransparencyBinaryServerProtocol.*, TransparencyTextServerProtocol.*
 
 // C16: a restart replays exactly one snapshot, the file called rewrite.aof: the unfinished output of a compaction
 // (rewrite.aof.tmp) and anything else that merely starts with that name is never taken for it
